@@ -1496,3 +1496,54 @@ package raft
 //@   localonly
 //@   ensures  queues_what_it_names: sent(r.configurationChangeCh) != old(sent(r.configurationChangeCh)) ==> lastsent(r.configurationChangeCh).req.command == DemoteVoter && lastsent(r.configurationChangeCh).req.serverID == id &&
 //@              lastsent(r.configurationChangeCh).req.prevIndex == prevIndex && r.protocolVersion >= 3
+
+// ---------------------------------------------------------------------------
+// C16: the connection pool. A connection taken from the pool is no longer in it (two exchanges never
+// share one), the rest of the pool is untouched; a connection handed back is either appended to the
+// pool of its own target or released, never both, and the pool never grows beyond maxPool.
+
+//@ func (n *NetworkTransport) getPooledConn
+//@   requires nonnil: n != nil
+//@   requires pool_holds_connections: forall j int :: 0 <= j && j < len(n.connPool[target]) ==> n.connPool[target][j] != nil
+//@   modifies n.connPool[*], allof("E.PnetConn.")
+//@   ensures  taken_out_of_the_pool: result != nil ==> len(n.connPool[target]) == old(len(n.connPool[target])) - 1 && result == old(n.connPool[target][len(n.connPool[target]) - 1])
+//@   ensures  rest_of_the_pool_kept: forall j int :: 0 <= j && j < len(n.connPool[target]) ==> n.connPool[target][j] == old(n.connPool[target][j])
+//@   ensures  nothing_pooled_means_nil: (result == nil) == (!old(dom(n.connPool, target)) || old(len(n.connPool[target])) == 0)
+//@   ensures  taken_from_a_nonempty_pool: result != nil ==> old(len(n.connPool[target])) > 0
+//@   ensures  nil_leaves_pool: result == nil ==> len(n.connPool[target]) == old(len(n.connPool[target]))
+//@   ensures  other_targets_untouched: forall k ServerAddress :: k != target ==> n.connPool[k] == old(n.connPool[k])
+
+//@ func (n *NetworkTransport) returnConn
+//@   requires nonnil: n != nil && conn != nil
+//@   modifies n.connPool[*], allof("E.PnetConn."), released, received(n.shutdownCh)
+//@   ensures  pooled_or_released_never_both: !old(released[conn]) ==> released[conn] != (len(n.connPool[conn.target]) == old(len(n.connPool[conn.target])) + 1 && n.connPool[conn.target][len(n.connPool[conn.target]) - 1] == conn)
+//@   ensures  released_means_pool_unchanged: released[conn] && !old(released[conn]) ==> len(n.connPool[conn.target]) == old(len(n.connPool[conn.target]))
+//@   ensures  pool_is_bounded: len(n.connPool[conn.target]) <= max(old(len(n.connPool[conn.target])), n.maxPool)
+//@   ensures  earlier_entries_kept: forall j int :: 0 <= j && j < old(len(n.connPool[conn.target])) ==> n.connPool[conn.target][j] == old(n.connPool[conn.target][j])
+//@   ensures  nobody_else_released: forall c *netConn :: c != conn ==> released[c] == old(released[c])
+//@   ensures  other_targets_untouched: forall k ServerAddress :: k != conn.target ==> n.connPool[k] == old(n.connPool[k])
+
+// a connection comes from the pool of the very target asked for, or is dialled anew for it
+//@ func (n *NetworkTransport) getConn
+//@   requires nonnil: n != nil && n.stream != nil
+//@   requires pool_holds_connections: forall j int :: 0 <= j && j < len(n.connPool[target]) ==> n.connPool[target][j] != nil
+//@   localonly
+//@   ensures  connection_or_error: (result1 == nil) == (result0 != nil)
+//@   ensures  pooled_for_this_target_or_new: result0 != nil ==> (isfresh(result0) && result0.target == target) || (old(len(n.connPool[target])) > 0 && result0 == old(n.connPool[target][len(n.connPool[target]) - 1]))
+//@   ensures  pooled_connection_leaves_the_pool: result0 != nil && !isfresh(result0) ==> len(n.connPool[target]) == old(len(n.connPool[target])) - 1
+
+// the snapshot stream: the connection is always released and never pooled (the stream leaves it in an
+// unknown framing state); a nil result means no write, copy, flush or decode failed
+//@ extern io.Copy(dst, src)
+//@   modifies ioErrors
+//@   ensures  counted: (result1 != nil) == (ioErrors == old(ioErrors) + 1) && (result1 == nil) == (ioErrors == old(ioErrors))
+
+//@ func (n *NetworkTransport) InstallSnapshot
+//@   requires nonnil: n != nil && n.stream != nil && args != nil && n.TimeoutScale != 0
+//@   localonly
+//@   ensures  failed_exchange_yields_error: result == nil ==> ioErrors == old(ioErrors)
+//@   at call (*NetworkTransport).returnConn#* assert snapshot_connection_never_pooled: false
+//@   at call sendRPC#1 assert sends_the_callers_request: cast(arg2, *InstallSnapshotRequest) == args && arg1 == rpcInstallSnapshot
+//@   at call io.Copy#1 assert streams_the_callers_data_after_the_request: arg1 == data && cast(arg0, *bufio.Writer) == conn.w
+//@   at call decodeResponse#1 assert response_read_after_flushing_on_the_same_connection: arg0 == conn && cast(arg1, *InstallSnapshotResponse) == resp
+//@   at call (*netConn).Release#* assert releases_its_own_connection: arg0 == conn
